@@ -7,13 +7,14 @@ export GOFLAGS=-mod=mod GOPROXY=off
 W=/tmp/confirm.$$
 git -C /repo worktree add -q $W HEAD || exit 3
 cd $W
+touch dbms/server.crt dbms/server.key
 cp $S/demo_test.go $PKG/zz_seed_demo_test.go
 for f in $S/demo_*_test.go; do [ -f "$f" ] && cp $f $PKG/zz_$(basename $f); done 2>/dev/null
 go test -vet=off -count=1 -run "$RUN" ./$PKG/ > $W.without.log 2>&1; without=$?
 git apply $S/patch.diff; applied=$?
 go build ./db19/... ./core/... ./compile/... ./util/... ./dbms/query/... > $W.build.log 2>&1; build=$?
 go test -vet=off -count=1 -run "$RUN" ./$PKG/ > $W.with.log 2>&1; with=$?
-rm -f $PKG/zz_seed_demo_test.go $PKG/zz_demo_*_test.go
+rm -f dbms/server.crt dbms/server.key $PKG/zz_seed_demo_test.go $PKG/zz_demo_*_test.go
 base="skipped"
 if [ -z "$NB" ]; then base=$(/verif/tools/baseline.sh $W 2>&1 | grep "stable:" ); fi
 echo "{\"demo_without_change_exit\": $without, \"patch_applies\": $applied, \"build_exit\": $build, \"demo_with_change_exit\": $with, \"baseline\": \"$base\"}"
